@@ -710,10 +710,15 @@ func runShutdown(c *Case) ([]Obs, any) {
 				ch := node.VerifTxChannel()
 				n := 0
 				deadline := time.Now().Add(600 * time.Millisecond)
-				for time.Now().Before(deadline) {
+				closed := false
+				for time.Now().Before(deadline) && !closed {
 					select {
-					case <-ch.Channel:
-						n++
+					case _, ok := <-ch.Channel:
+						if !ok {
+							closed = true // the run loop has closed the channel: nothing is left
+						} else {
+							n++
+						}
 					default:
 						time.Sleep(5 * time.Millisecond)
 					}
@@ -746,7 +751,10 @@ func runShutdown(c *Case) ([]Obs, any) {
 			deadline := time.Now().Add(time.Second)
 			for time.Now().Before(deadline) && !chanDone(stopDone) {
 				select {
-				case <-ch.Channel:
+				case _, ok := <-ch.Channel:
+					if !ok {
+						deadline = time.Now()
+					}
 				default:
 					time.Sleep(5 * time.Millisecond)
 				}
